@@ -1155,6 +1155,19 @@ func (x *Exec) stdlib(st *State, callee *ssa.Function, args []Val, site string) 
 		q := cx.fresh("qi")
 		x.assume(st, fmt.Sprintf("(= %s (exists ((%s %s)) (and (<= 0 %s) (< %s (len_%s %s)) (= (select (arr_%s %s) %s) %s))))", b, q, is, q, q, sn, args[0].S, sn, args[0].S, q, args[1].S))
 		return Val{S: b, T: types.Typ[types.Bool]}
+	case "maps.Clone":
+		// a fresh map with the entries of the argument (the argument is assumed non-nil: a nil map clones to nil, which
+		// the callers in scope never pass -- checked)
+		src := args[0]
+		mt := src.T.Underlying().(*types.Map)
+		kv, kh := cx.mapKeys(mt)
+		x.check(st, "safe:nilmap@"+site, fmt.Sprintf("(not (= %s %s))", src.S, cx.num(0)), site)
+		ov, oh := x.heapName(st, kv), x.heapName(st, kh)
+		p := x.newPtr(st, "map", kv)
+		st.fresh[p] = true
+		x.heapSet(st, kv, p, fmt.Sprintf("(select %s %s)", ov, src.S))
+		x.heapSet(st, kh, p, fmt.Sprintf("(select %s %s)", oh, src.S))
+		return Val{S: p, T: src.T}
 	case "maps.Copy":
 		dst, src := args[0], args[1]
 		mt := dst.T.Underlying().(*types.Map)
